@@ -91,17 +91,25 @@ theorem C20_no_pins_no_survivors (q : Quirks) (h : Heap) (hq : q.exprTableLeak =
     not_exists, not_and, not_forall, Decidable.not_not]
   simpa using ⟨x, hx, rfl⟩
 
-/-- **C20_cex_query_cache** (test on a concrete witness = finding F-C20-1): an instance is created, a query over its
-type is built, evaluated and dropped, the instance is dropped: it is still alive (root: expression table → Variable
-→ cached domain), stays in the census, and the table has grown. With the quirk off it is reclaimed. -/
+/-- **C20_current_no_pins_no_survivors.** The code as it is (`Quirks.asIs`: the expression table releases dropped query
+objects since the repair of F-C20-1): in every heap in which the user holds no instance and no query object, nothing is
+alive after `gc.collect()`. -/
+theorem C20_current_no_pins_no_survivors (h : Heap) (hheld : h.held = [])
+    (hqv : ∀ v ∈ h.qvars, v.held = false) : (h.collect Quirks.asIs).live = [] :=
+  C20_no_pins_no_survivors Quirks.asIs h rfl hheld hqv
+
+/-- **C20_cex_query_cache** (test on a concrete witness = finding F-C20-1, repaired): an instance is created, a query
+over its type is built, evaluated and dropped, the instance is dropped. Before the repair (`Quirks.leaky`) it was still
+alive (root: expression table → Variable → cached domain), stayed in the census, and the table had grown. The code as it
+is reclaims it and the table is back to its size. -/
 theorem C20_cex_query_cache :
     let ops := [Op.new 0 0 0, .mkq 1 0 none, .evalq 1, .dropq 1, .drop 0, .sweep]
-    ((run Quirks.asIs cexSchema lifo ops).h.isLive 0 = true ∧
-     (run Quirks.asIs cexSchema lifo ops).g.nodes.length = 1 ∧
-     (run Quirks.asIs cexSchema lifo ops).h.exprs = 1) ∧
-    ((run { Quirks.asIs with exprTableLeak := false } cexSchema lifo ops).h.isLive 0 = false ∧
-     (run { Quirks.asIs with exprTableLeak := false } cexSchema lifo ops).g.nodes.length = 0 ∧
-     (run { Quirks.asIs with exprTableLeak := false } cexSchema lifo ops).h.exprs = 0) := by
+    ((run Quirks.leaky cexSchema lifo ops).h.isLive 0 = true ∧
+     (run Quirks.leaky cexSchema lifo ops).g.nodes.length = 1 ∧
+     (run Quirks.leaky cexSchema lifo ops).h.exprs = 1) ∧
+    ((run Quirks.asIs cexSchema lifo ops).h.isLive 0 = false ∧
+     (run Quirks.asIs cexSchema lifo ops).g.nodes.length = 0 ∧
+     (run Quirks.asIs cexSchema lifo ops).h.exprs = 0) := by
   decide
 
 /-- **C20_cex_index_entries** (test on a concrete witness = finding F-C20-2, repaired by c18b52a): two instances are created, related,
